@@ -59,8 +59,8 @@ def parsePhase (s : String) : Except String Phase :=
   | _ => throw s!"bad phase {s}"
 
 /-
-  request  {"op":"emit", "si":b, "pool":b, "bodyRaises":b, "faults":[call indices that raise],
-            "prog":[[["query"] | ["lockQuery"] | ["direct",entry] | ["flush",[entry..]] | ["commit",[entry..]] | ["rollback"], caught]..]}
+  request  {"op":"emit", "si":b, "ddl":b, "pool":b, "bodyRaises":b, "faults":[call indices that raise],
+            "prog":[[["query"] | ["lockQuery"] | ["direct",entry] | ["flush",[entry..]] | ["commit",[entry..]] | ["rollback"] | ["flushQuery",[entry..],lock] | ["flushDirect",[entry..],entry], caught]..]}
   reply    {"events":[[kind, ok]..], "table":{entry: opens..}, "flushSetsImmediate":b}     (entry-point table = Gen/TxnEntry.lean)
 -/
 def parseEntry (s : String) : Except String Entry :=
@@ -83,6 +83,8 @@ def parseOp (j : Json) : Except String (Op × Bool) := do
   | .arr #[.arr #[.str "flush", es], .bool c] => pure (.flush (← parseEntries es), c)
   | .arr #[.arr #[.str "commit", es], .bool c] => pure (.commit (← parseEntries es), c)
   | .arr #[.arr #[.str "rollback"], .bool c] => pure (.rollback, c)
+  | .arr #[.arr #[.str "flushQuery", es, .bool lock], .bool c] => pure (.flushQuery (← parseEntries es) lock, c)
+  | .arr #[.arr #[.str "flushDirect", es, .str e], .bool c] => pure (.flushDirect (← parseEntries es) (← parseEntry e) [], c)
   | _ => throw s!"bad op {j.compress}"
 
 def stmtName : Stmt → String
@@ -115,9 +117,10 @@ def handle (j : Json) : Except String Json := do
       let si ← argBool j "si"
       let pool ← argBool j "pool"
       let br ← argBool j "bodyRaises"
+      let ddl := (argBool j "ddl").toOption.getD false
       let faults ← (← argArr j "faults").mapM (fun x => (fromJson? x : Except String Nat))
       let prog ← (← argArr j "prog").mapM parseOp
-      let r := session PonyVerif.Gen.TxnEntry.opens PonyVerif.Gen.TxnEntry.flushSetsImmediate si (A.start pool si) prog br
+      let r := session PonyVerif.Gen.TxnEntry.opens PonyVerif.Gen.TxnEntry.flushSetsImmediate si ddl (A.start pool si) prog br
                  (fun i => faults.contains i)
       pure (Json.mkObj [
         ("events", .arr (r.evs.map (fun e => Json.arr #[.str (stmtName e.stmt), .bool e.ok])).toArray),
